@@ -402,7 +402,7 @@ def namedModuleImport (ctx : PCtx) (s : PS) (name : Str) : Res PS :=
     let k := 2 + off
     let before := s.rest.take k
     let s1 : PS := { s with rest := s.rest.drop k, prev := (before.getLast?).getD s.prev }
-    if !endsWith path ".pakhi".toList then s1.syntaxErr "not-a-module-file-name"
+    if !endsWith path W.extPakhi then s1.syntaxErr "not-a-module-file-name"
     else
       match moduleTokens ctx path name with
       | .err e => .err e | .panic p => .panic p | .fuel => .fuel
